@@ -434,3 +434,17 @@ def r10(rr, repo):
                 rr.ob(f'Frame.{name} returns itself, a cached converted view or a newly built Frame', ok, mod, fn, witness=t[:80], key=f'other|{name}')
         rr.ob(f'Frame.{name} has a path on which the frame itself is good enough', selfs >= 1, mod, fn, key=f'self-exists|{name}')
     rr.floor('accessor return paths judged', n, 30, *acc_paths(repo, 'rw')[:2])
+
+
+@rule('C10.R11', "'read-only' means 'cannot change' only for memory nobody else can write: the caches (encoded JPEG, converted RGB / BGR / GRAY views) are kept for an image whose own write flag is off, and a read-only VIEW "
+                 "of a buffer that is writable through its base (arr.view() with the flag cleared, np.broadcast_to, np.frombuffer over a bytearray) has that flag off too - so the constructor adopts a read-only array "
+                 "without a copy only after looking at what owns its memory (the .base chain / OWNDATA), or copies it")
+def r11(rr, repo):
+    mod, init = repo.find(f'{FR}::Frame.__init__')
+    _, cls = repo.find(f'{FR}::Frame')
+    caches = [n for n in ast.walk(cls) if isinstance(n, ast.If) and isinstance(n.test, ast.UnaryOp) and isinstance(n.test.op, ast.Not) and U(n.test.operand).endswith('.flags.writeable')
+              and any(isinstance(a, ast.Assign) and any(isinstance(t, ast.Attribute) and U(t).startswith('self._') for t in a.targets) for a in ast.walk(n))]
+    rr.floor("caches kept under `not <image>.flags.writeable`", len(caches), 2, mod, cls)
+    looks = [n for n in ast.walk(init) if isinstance(n, ast.Attribute) and (n.attr in ('base', 'owndata', 'OWNDATA') or (n.attr == 'copy' and 'image' in U(n.value)))]
+    rr.ob('Frame.__init__ establishes who owns the memory of a read-only array before adopting it (inspects .base / OWNDATA, or copies)', bool(looks), mod, init,
+          witness=f'{len(caches)} caches rest on the write flag alone; references to .base / owndata / image.copy() in __init__: {[U(n) for n in looks] or "none"}', key='ro-view-of-writable-base')
